@@ -37,6 +37,10 @@ def decodeUtf16 (b : Bytes) : Except Err Str :=
 
 def encodeUtf16 (s : Str) : Bytes := s.flatMap fun (u : UInt16) => [u.toUInt8, (u >>> 8).toUInt8]
 
+/-- names the reader rejects: a child called '', '.', '..' or containing '/' cannot be told apart from its parent or an
+    ancestor when the tree is walked -/
+def badName (n : Str) : Bool := n.isEmpty || n == [0x2E] || n == [0x2E, 0x2E] || n.any (· == 0x2F)
+
 /-- parsed tree: what `_tree_root` holds -/
 inductive PNode
   | dir (name : Str) (contents : List (Str × PNode))
@@ -86,6 +90,7 @@ def dirLoop (e : Env) : Nat → Nat → List (Str × PNode) → Counters → Exc
       match decodeUtf16 nameRaw with
       | .error err => .error err
       | .ok name =>
+        if badName name then .error (.other "RomFSEntryError") else
         match iterDir e fuel ent c with
         | .error err => .error err
         | .ok (sub, c1) =>
@@ -107,6 +112,7 @@ def fileLoop (e : Env) : Nat → Nat → List (Str × PNode) → Counters → Ex
       match decodeUtf16 nameRaw with
       | .error err => .error err
       | .ok name =>
+        if badName name then .error (.other "RomFSEntryError") else
         let out := dictSet out (e.key name) (.file name fOff fSize)
         if next = NONE then .ok (out, c) else fileLoop e fuel next out c
 end
@@ -127,7 +133,7 @@ def parse (lower : Str → Str) (ci : Bool) (file : Bytes) (start : Nat) : Excep
       else
         let mhs := u32 header 8
         let bs := u32 header 0x4C
-        if bs > 64 then .error (.other "unmodelled-block-size")
+        if bs > 0x3F then .error (.other "InvalidIVFCError")
         else
           let off := roundupNat (0x60 + mhs) (2 ^ bs)
           .ok (off, slice file (start + off) 0x28)
@@ -212,7 +218,7 @@ def repFiles (e : Env) : Nat → List (Str × Nat × Nat) → Bool
     let ent := slice e.fm off 0x20
     off != NONE && ent.length == 0x20 &&
     (match decodeUtf16 (slice e.fm (off + 0x20) (readLE (slice ent 0x1C 4))) with
-     | .ok n => n == f.1
+     | .ok n => n == f.1 && !badName n
      | .error _ => false) &&
     readLE (slice ent 0x8 8) == f.2.1 && readLE (slice ent 0x10 8) == f.2.2 &&
     repFiles e (readLE (slice ent 0x4 4)) fs
@@ -229,7 +235,7 @@ def repDirs (e : Env) : Nat → List Tree → Bool
     let ent := slice e.dm off 0x18
     off != NONE && ent.length == 0x18 &&
     (match decodeUtf16 (slice e.dm (off + 0x18) (readLE (slice ent 0x14 4))) with
-     | .ok n => n == d.name
+     | .ok n => n == d.name && !badName n
      | .error _ => false) &&
     repDir e ent d && repDirs e (readLE (slice ent 0x4 4)) ds
 end
